@@ -10,14 +10,14 @@ MON_C16 = {"Mon_CurrentUnique", "Mon_CurrentSchedule", "Mon_Next", "Mon_Monotone
 NONLINEAR = {"R_AboveBufferBelowGuard", "R_AtElapsedMax", "R_ProductWraps", "R_ProductWrapsSmall", "R_ProductNegative", "R_JustAboveBuffer"}
 NL_PERIODS = [3, 25, 30, 1000, 3600, 65537, 1000003, 16777259, 2147483659, 4294967291, 4294967295, 7, 86400, 4, 1023, 4294901760]
 
-QUICK_CORE = ["R_BelowGuard", "R_AtGuard", "R_Pow2m1BelowGuard", "R_Pow2m1AtGuard", "R_MaxPeriodBelowGuard", "R_Max",
+QUICK_CORE = ["R_BelowGuard", "R_AtGuard", "R_DoubleGuard", "R_DoubleGuardM2", "R_HalfGuard", "R_Pow2m1BelowGuard", "R_Pow2m1AtGuard", "R_MaxPeriodBelowGuard", "R_Max",
               "R_JustAboveBuffer", "R_AboveBufferBelowGuard", "R_ProductWraps", "T_OnBoundaryFar", "T_BeforeBoundaryFar", "T_MaxAll",
               "T_BigPeriodBefore", "T_Pow2m1Before", "T_MaxElapsed"]
 
 # boundary classes of Apa_RoundTime.tla: name -> (call kind, period free?, genesis free?)
 CLASSES = {
     "R_BelowGuard": ("TOR", 1, 1), "R_TwoBelowGuard": ("TOR", 1, 1), "R_AtGuard": ("TOR", 1, 1),
-    "R_AboveGuard": ("TOR", 1, 1), "R_Pow2m1BelowGuard": ("TOR", 0, 1), "R_Pow2m1AtGuard": ("TOR", 0, 1),
+    "R_AboveGuard": ("TOR", 1, 1), "R_DoubleGuard": ("TOR", 1, 1), "R_DoubleGuardM2": ("TOR", 1, 1), "R_HalfGuard": ("TOR", 1, 1), "R_Pow2m1BelowGuard": ("TOR", 0, 1), "R_Pow2m1AtGuard": ("TOR", 0, 1),
     "R_Pow2BelowGuard": ("TOR", 0, 1), "R_Pow2AtGuard": ("TOR", 0, 1), "R_MaxPeriodBelowGuard": ("TOR", 0, 1),
     "R_MaxPeriodMaxGenesis": ("TOR", 0, 0), "R_Pow2m2MaxGenesis": ("TOR", 0, 0), "R_Max": ("TOR", 1, 1),
     "R_HalfMax": ("TOR", 1, 1), "R_HalfMaxP1": ("TOR", 1, 1), "R_Zero": ("TOR", 1, 1), "R_One": ("TOR", 1, 1),
